@@ -85,19 +85,6 @@ MapOut(api, o) == IF api \notin {"MapReduce", "MapReduceChan"} /\ o = Err("NOOUT
 
 Outcomes(s) == {MapOut(s.api, o) : o \in CauseOutcomes(s) \cup NormalOutcomes(s)}
 
-\* Ordering knowledge (directed scenarios): once a cancel / the context is known to have been RECORDED by the call
-\* before the reducer begins its write, that write is no longer a legitimate result ("cancel(err) makes the call
-\* return that error"): only the outcomes of the causes remain.
-OrderedOutcomes(s) == {MapOut(s.api, o) : o \in CauseOutcomes(s)}
-\* the directed scenarios: two items, the generator is held after the first one, the reducer does not read the pipe and
-\* writes once - but only after the driver has observed the cancel (of the mapper of item 1) / the context's
-\* cancellation (handled by the caller) to be recorded
-Directed(s, o) ==
-  /\ s.api \in {"MapReduce", "MapReduceChan"} /\ s.n = 2 /\ s.workers \in 1..2
-  /\ s.rstop = 0 /\ s.rw = 1 /\ s.rend = "ret" /\ s.genk = -1
-  /\ \/ o = "cancel-before-write" /\ s.ctx = "bg" /\ s.mb[1] \in {"cancelE", "cancelNil"} /\ s.mb[2] \in {"w0", "w1"}
-     \/ o = "ctx-before-write" /\ s.ctx = "during" /\ s.mb[1] \in {"w0", "w1"} /\ s.mb[2] \in {"w0", "w1"}
-
 \* "without cancellation": nothing abnormal at all in the scenario
 NoCause(s) == /\ CancelIdx(s) = {} /\ PanicIdx(s) = {} /\ LateIdx(s) = {} /\ ~GenPanics(s)
               /\ s.ctx = "bg" /\ s.rend = "ret" /\ s.rw <= 1
@@ -138,6 +125,28 @@ WellFormed(s) ==
            /\ IF LateIdx(s) # {} /\ s.rw >= 1 /\ s.rstop # -1
                 THEN s.ctx = "bg" /\ ReachableCancel(s)
                 ELSE s.ctx # "bg" \/ ReachableCancel(s)
+
+\* Ordering knowledge (directed scenarios): once a cancel / the context is known to have been RECORDED by the call
+\* before the reducer begins its write, that write is no longer a legitimate result ("cancel(err) makes the call
+\* return that error"): only the outcomes of the causes remain.
+OrderedOutcomes(s) == {MapOut(s.api, o) : o \in CauseOutcomes(s)}
+\* the directed scenarios: two items, the generator is held after the first one, the reducer does not read the pipe and
+\* writes once - but only after the driver has observed the cancel (of the mapper of item 1) / the context's
+\* cancellation (handled by the caller) to be recorded
+Directed(s, o) ==
+  \/ /\ o \in {"cancel-before-write", "ctx-before-write"}
+     /\ s.api \in {"MapReduce", "MapReduceChan"} /\ s.n = 2 /\ s.workers \in 1..2
+     /\ s.rstop = 0 /\ s.rw = 1 /\ s.rend = "ret" /\ s.genk = -1
+     /\ \/ o = "cancel-before-write" /\ s.ctx = "bg" /\ s.mb[1] \in {"cancelE", "cancelNil"} /\ s.mb[2] \in {"w0", "w1"}
+        \/ o = "ctx-before-write" /\ s.ctx = "during" /\ s.mb[1] \in {"w0", "w1"} /\ s.mb[2] \in {"w0", "w1"}
+  \* "workers-held": every entry point that takes WithWorkers, more items than workers (and fewer workers than the
+  \* default 16); every mapper waits inside the user function until the driver has seen the whole call at rest, so the
+  \* number of mappers inside at that moment is exact, not sampled.  Nothing abnormal: Outcomes(s) applies unchanged.
+  \/ /\ o = "workers-held"
+     /\ s.api \in {"MapReduce", "MapReduceChan", "MapReduceVoid", "ForEach"} /\ s.n \in 3..4 /\ s.workers \in 1..2
+     /\ \E b \in {"w0", "w1"} : \A i \in 1..s.n : s.mb[i] = b
+     /\ s.rstop = -1 /\ s.rw = (IF s.api \in {"MapReduce", "MapReduceChan"} THEN 1 ELSE 0)
+     /\ s.rend = "ret" /\ s.genk = -1 /\ s.ctx = "bg" /\ Applicable(s)
 
 MBs(f, n) ==
   IF ~f.Sparse THEN [1..n -> f.MBSet]
